@@ -150,6 +150,101 @@ pub fn run_path(scn: &Arc<Scenario>, path: &[Action], check_prefix: bool) -> Out
     out
 }
 
+/// Fixed scheduling policies for long single runs (scenarios far beyond what the search can
+/// enumerate: hundreds of operations, thousands of items). Each picks, among the enabled
+/// actions, the first of its priority list.
+#[derive(Clone, Copy, Debug, PartialEq, Eq)]
+pub enum Policy {
+    /// deliver and consume as early as possible: PollC, PollD, Net, Srv, Bogus, Do, Tick
+    Eager,
+    /// the server says everything it has before anybody reads: Srv, Bogus, Net, PollD, PollC, Do, Tick
+    ServerFirst,
+    /// every client starts its call before the driver runs: Do, PollD, Srv, Net, PollC, Tick
+    ClientsFirst,
+    /// the clock runs ahead of the server: Tick, PollC, PollD, Srv, Net, Do
+    ClockFirst,
+}
+
+fn rank(p: Policy, a: &Action) -> u32 {
+    use Action::*;
+    let order: [u8; 8] = match p {
+        //            PollC PollD Net Srv Bogus Do Tick other
+        Policy::Eager => [0, 1, 2, 3, 4, 5, 6, 7],
+        Policy::ServerFirst => [4, 3, 2, 0, 1, 5, 6, 7],
+        Policy::ClientsFirst => [4, 1, 3, 2, 5, 0, 6, 7],
+        Policy::ClockFirst => [1, 2, 4, 3, 5, 6, 0, 7],
+    };
+    let k = match a {
+        PollC(_) => 0,
+        PollD(_) => 1,
+        Net(_) => 2,
+        Srv(_) => 3,
+        Bogus(_) => 4,
+        Do(_) | DoFree(_, _) => 5,
+        Tick => 6,
+        _ => 7,
+    };
+    order[k] as u32
+}
+
+/// One long execution under a fixed policy, in a single world (no re-execution). A fault of the
+/// scenario's list is injected once the server has nothing more to say (if the budget allows).
+/// Quiescent-state oracles run after every step, the terminal oracle at the end.
+pub fn run_canonical(scn: &Arc<Scenario>, policy: Policy, limit: usize) -> (Outcome, Vec<Action>) {
+    super::world::install_rng_hook();
+    let _guard = InflightGuard::new(scn, &[]);
+    let rt = tokio::runtime::Builder::new_current_thread().enable_time().start_paused(true).build().unwrap();
+    let out = rt.block_on(async {
+        let mut w = World::new(scn.clone());
+        let mut path: Vec<Action> = vec![];
+        let mut enabled = w.enabled();
+        while !enabled.is_empty() && path.len() < limit {
+            // faults, cancellations and the last-handle drop are taken only when nothing else is left
+            let normal: Vec<&Action> = enabled.iter().filter(|a| !matches!(a, Action::Fault(_) | Action::Cancel(_) | Action::DropAll | Action::WriteReady | Action::Inject)).collect();
+            // (the fault comes when nothing but the clock could still move)
+            let nothing_else = !normal.iter().any(|a| !matches!(a, Action::Tick));
+            let a = if let (true, Some(f)) = (nothing_else, enabled.iter().find(|a| matches!(a, Action::Fault(_)))) {
+                f.clone()
+            } else if let Some(a) = normal.iter().min_by_key(|a| rank(policy, a)) {
+                (*a).clone()
+            } else {
+                enabled[0].clone()
+            };
+            w.apply(&a).await;
+            path.push(a);
+            w.check_quiescent();
+            if !w.viol.is_empty() && w.viol.len() > 20 {
+                break;
+            }
+            enabled = w.enabled();
+        }
+        if enabled.is_empty() {
+            w.check_terminal();
+        }
+        let canon = String::new();
+        let o = Outcome {
+            digest: 0,
+            prefix_digest: None,
+            enabled,
+            viol: w.viol.clone(),
+            logs: w.logs(),
+            quiescent: w.quiescent(),
+            pending: w.pending_clients(),
+            multi_outstanding: w.stats_multi_outstanding,
+            driver: match &w.dstatus {
+                super::world::DriverStatus::Running => "running".into(),
+                super::world::DriverStatus::Done(r) => format!("returned {:?}", r),
+                super::world::DriverStatus::Panicked(m) => format!("panicked: {}", m),
+            },
+            canon,
+        };
+        drop(w);
+        (o, path)
+    });
+    drop(rt);
+    out
+}
+
 #[derive(Default)]
 pub struct Stats {
     pub transitions: AtomicU64,
